@@ -1,12 +1,14 @@
-//! C17 (positional form, Keccak-256): verify_with_index_and_set_claimed behind a wrapper.
+//! C17 (positional form; Keccak-256 or SHA-256 per run): verify_with_index_and_set_claimed behind a wrapper, plus the
+//! pure sorted-pair verifier of the same hasher over the same leaves.
 
 use crate::core::*;
 use crate::world::Base as W;
 use serde::{Deserialize, Serialize};
 use soroban_sdk::{contract, contractimpl, contracttype, xdr::ToXdr, Bytes, BytesN, Env, Vec};
-use stellar_contract_utils::{crypto::{keccak::Keccak256, merkle::Verifier}, merkle_distributor::{IndexableLeaf, MerkleDistributor}};
+use stellar_contract_utils::{crypto::{keccak::Keccak256, merkle::Verifier, sha256::Sha256}, merkle_distributor::{IndexableLeaf, MerkleDistributor}};
 
 type D = MerkleDistributor<Keccak256>;
+type DS = MerkleDistributor<Sha256>;
 
 #[contracttype]
 #[derive(Clone)]
@@ -21,6 +23,32 @@ impl Dist {
     pub fn claim(e: &Env, leaf: Leaf, proof: Vec<BytesN<32>>) { D::verify_with_index_and_set_claimed(e, leaf, proof) }
     pub fn is_claimed(e: &Env, index: u32) -> bool { D::is_claimed(e, index) }
     pub fn verify(e: &Env, proof: Vec<BytesN<32>>, root: BytesN<32>, leaf: BytesN<32>, index: u32) -> bool { Verifier::<Keccak256>::verify_with_index(e, proof, root, leaf, index) }
+    pub fn verify_sorted(e: &Env, proof: Vec<BytesN<32>>, root: BytesN<32>, leaf: BytesN<32>) -> bool { Verifier::<Keccak256>::verify(e, proof, root, leaf) }
+}
+/// the same wrapper over SHA-256
+#[contract]
+pub struct DistS;
+#[contractimpl]
+impl DistS {
+    pub fn set_root(e: &Env, root: BytesN<32>) { DS::set_root(e, root) }
+    pub fn claim(e: &Env, leaf: Leaf, proof: Vec<BytesN<32>>) { DS::verify_with_index_and_set_claimed(e, leaf, proof) }
+    pub fn is_claimed(e: &Env, index: u32) -> bool { DS::is_claimed(e, index) }
+    pub fn verify(e: &Env, proof: Vec<BytesN<32>>, root: BytesN<32>, leaf: BytesN<32>, index: u32) -> bool { Verifier::<Sha256>::verify_with_index(e, proof, root, leaf, index) }
+    pub fn verify_sorted(e: &Env, proof: Vec<BytesN<32>>, root: BytesN<32>, leaf: BytesN<32>) -> bool { Verifier::<Sha256>::verify(e, proof, root, leaf) }
+}
+/// one client type for both wrappers
+enum Cl<'a> { K(DistClient<'a>), S(DistSClient<'a>) }
+impl<'a> Cl<'a> {
+    fn set_root(&self, r: &BytesN<32>) { match self { Cl::K(c) => c.set_root(r), Cl::S(c) => c.set_root(r) } }
+    fn is_claimed(&self, i: &u32) -> bool { match self { Cl::K(c) => c.is_claimed(i), Cl::S(c) => c.is_claimed(i) } }
+    fn try_claim(&self, l: &Leaf, p: &Vec<BytesN<32>>) -> bool { match self { Cl::K(c) => c.try_claim(l, p).is_ok(), Cl::S(c) => c.try_claim(l, p).is_ok() } }
+    /// Some(answer), or None when the call failed
+    fn try_verify(&self, p: &Vec<BytesN<32>>, r: &BytesN<32>, l: &BytesN<32>, i: &u32) -> Option<bool> {
+        match self { Cl::K(c) => c.try_verify(p, r, l, i).ok().and_then(|x| x.ok()), Cl::S(c) => c.try_verify(p, r, l, i).ok().and_then(|x| x.ok()) }
+    }
+    fn try_verify_sorted(&self, p: &Vec<BytesN<32>>, r: &BytesN<32>, l: &BytesN<32>) -> Option<bool> {
+        match self { Cl::K(c) => c.try_verify_sorted(p, r, l).ok().and_then(|x| x.ok()), Cl::S(c) => c.try_verify_sorted(p, r, l).ok().and_then(|x| x.ok()) }
+    }
 }
 
 #[derive(Clone, Copy, Debug, Serialize, Deserialize, PartialEq)]
@@ -28,17 +56,45 @@ pub enum Corrupt { None, Amount, Index(u32), Flip(usize), Truncate, Extend, Othe
 #[derive(Clone, Debug, Serialize, Deserialize)]
 pub enum Step { Claim { tree: usize, k: usize, corrupt: Corrupt }, SetRoot { tree: usize }, Advance { n: u32 } }
 #[derive(Clone, Debug, Serialize, Deserialize)]
-pub struct Cfg { pub sizes: std::vec::Vec<usize> }
+pub struct Cfg {
+    pub sizes: std::vec::Vec<usize>,
+    /// SHA-256 instead of Keccak-256
+    #[serde(default)]
+    pub sha: bool,
+}
 
-fn kh(e: &Env, a: &[u8; 32], b: &[u8; 32]) -> [u8; 32] { let mut v = Bytes::from_array(e, a); v.append(&Bytes::from_array(e, b)); e.crypto().keccak256(&v).to_array() }
-fn build(e: &Env, leaves: &[[u8; 32]]) -> ([u8; 32], std::vec::Vec<std::vec::Vec<[u8; 32]>>) {
+fn hh(e: &Env, sha: bool, v: &Bytes) -> [u8; 32] { if sha { e.crypto().sha256(v).to_array() } else { e.crypto().keccak256(v).to_array() } }
+fn kh(e: &Env, sha: bool, a: &[u8; 32], b: &[u8; 32]) -> [u8; 32] { let mut v = Bytes::from_array(e, a); v.append(&Bytes::from_array(e, b)); hh(e, sha, &v) }
+/// reference sorted-pair tree (adjacent pairs, smaller hash first, an odd node is promoted); returns (root, proofs)
+fn build_sorted(e: &Env, sha: bool, leaves: &[[u8; 32]]) -> ([u8; 32], std::vec::Vec<std::vec::Vec<[u8; 32]>>) {
+    let mut proofs = vec![vec![]; leaves.len()];
+    let mut level: std::vec::Vec<([u8; 32], std::vec::Vec<usize>)> = leaves.iter().enumerate().map(|(i, l)| (*l, vec![i])).collect();
+    while level.len() > 1 {
+        let mut next = vec![];
+        for pair in level.chunks(2) {
+            if pair.len() == 2 {
+                for m in &pair[0].1 { proofs[*m].push(pair[1].0); }
+                for m in &pair[1].1 { proofs[*m].push(pair[0].0); }
+                let (x, y) = if pair[0].0 > pair[1].0 { (&pair[1].0, &pair[0].0) } else { (&pair[0].0, &pair[1].0) };
+                let mut mem = pair[0].1.clone();
+                mem.extend(pair[1].1.iter());
+                next.push((kh(e, sha, x, y), mem));
+            } else {
+                next.push(pair[0].clone());
+            }
+        }
+        level = next;
+    }
+    (level[0].0, proofs)
+}
+fn build(e: &Env, sha: bool, leaves: &[[u8; 32]]) -> ([u8; 32], std::vec::Vec<std::vec::Vec<[u8; 32]>>) {
     let mut width = 1; while width < leaves.len() { width *= 2; }
     let mut level: std::vec::Vec<[u8; 32]> = (0..width).map(|i| if i < leaves.len() { leaves[i] } else { [0u8; 32] }).collect();
     let mut proofs = vec![vec![]; leaves.len()];
     let mut pos: std::vec::Vec<usize> = (0..leaves.len()).collect();
     while level.len() > 1 {
         for (m, p) in pos.iter_mut().enumerate() { proofs[m].push(level[*p ^ 1]); *p /= 2; }
-        level = level.chunks(2).map(|c| kh(e, &c[0], &c[1])).collect();
+        level = level.chunks(2).map(|c| kh(e, sha, &c[0], &c[1])).collect();
     }
     (level[0], proofs)
 }
@@ -55,13 +111,13 @@ impl Check for MerkleIndexed {
             100000
         }
     }
-    fn components(&self) -> serde_json::Value { serde_json::json!({"real": ["MerkleDistributor<Keccak256>::verify_with_index_and_set_claimed", "Verifier::verify_with_index", "crypto::keccak"], "stub": ["reference positional tree in the harness"]}) }
+    fn components(&self) -> serde_json::Value { serde_json::json!({"real": ["MerkleDistributor<Keccak256 | Sha256>::verify_with_index_and_set_claimed", "Verifier::verify_with_index", "Verifier::verify (sorted-pair)", "crypto::{keccak, sha256}"], "stub": ["reference positional tree in the harness"]}) }
     fn clock_step(&self, n: u32) -> Option<Step> {
         Some(Step::Advance { n })
     }
     fn generate(&self, rng: &mut Rng, tier: Tier) -> (Cfg, std::vec::Vec<Step>) {
         let mk = |rng: &mut Rng| match rng.below(5) { 0 => 1, 1 => 2, 2 => 3, _ => 1 + rng.below(if tier == Tier::Quick { 20 } else { 100 }) as usize };
-        let cfg = Cfg { sizes: vec![mk(rng), mk(rng)] };
+        let cfg = Cfg { sizes: vec![mk(rng), mk(rng)], sha: rng.chance(50) };
         let mut steps = vec![Step::SetRoot { tree: 0 }];
         let mut cur = 0usize;
         for _ in 0..(15 + rng.below(50)) {
@@ -76,7 +132,7 @@ impl Check for MerkleIndexed {
         (cfg, steps)
     }
     fn probes(&self, _prop: &str) -> std::vec::Vec<&'static str> {
-        vec!["probe.claim_against_other_root", "probe.root_changed", "probe.claimed_flag_queried_after_long_time"]
+        vec!["probe.claim_against_other_root", "probe.root_changed", "probe.claimed_flag_queried_after_long_time", "probe.sorted_pair_honest", "probe.sorted_pair_corrupted"]
     }
     fn dup_ok(&self, _s: &Step) -> bool {
         true
@@ -87,13 +143,15 @@ impl Check for MerkleIndexed {
     fn execute(&self, cfg: &Cfg, steps: &[Step], st: &mut Stats) -> Result<(), Violation> {
         let w = W::new(1, 100, 16);
         let e = &w.e;
-        let id = e.register(Dist, ());
-        let c = DistClient::new(e, &id);
+        let sha = cfg.sha;
+        let id = if sha { e.register(DistS, ()) } else { e.register(Dist, ()) };
+        let c = if sha { Cl::S(DistSClient::new(e, &id)) } else { Cl::K(DistClient::new(e, &id)) };
         let trees: std::vec::Vec<_> = cfg.sizes.iter().enumerate().map(|(t, n)| {
             let leaves: std::vec::Vec<Leaf> = (0..*n).map(|i| Leaf { index: i as u32, amount: (t * 1000 + i) as i128 + 1 }).collect();
-            let hs: std::vec::Vec<[u8; 32]> = leaves.iter().map(|l| e.crypto().keccak256(&l.clone().to_xdr(e)).to_array()).collect();
-            let (root, proofs) = build(e, &hs);
-            (leaves, hs, root, proofs)
+            let hs: std::vec::Vec<[u8; 32]> = leaves.iter().map(|l| hh(e, sha, &l.clone().to_xdr(e))).collect();
+            let (root, proofs) = build(e, sha, &hs);
+            let sorted = build_sorted(e, sha, &hs);
+            (leaves, hs, root, proofs, sorted)
         }).collect();
         let mut cur: Option<usize> = None;
         let mut claimed: std::collections::BTreeSet<u32> = Default::default();
@@ -102,7 +160,7 @@ impl Check for MerkleIndexed {
                 Step::Advance { n } => { w.advance(*n); st.ledgers += *n as u64; st.hit("clock.advance"); if !claimed.is_empty() && *n > 600_000 { st.hit("probe.claimed_flag_queried_after_long_time"); } }
                 Step::SetRoot { tree } => { c.set_root(&BytesN::from_array(e, &trees[*tree].2)); cur = Some(*tree); st.hit("probe.root_changed"); }
                 Step::Claim { tree, k, corrupt } => {
-                    let (leaves, hs, root, proofs) = &trees[*tree];
+                    let (leaves, hs, root, proofs, (sroot, sproofs)) = &trees[*tree];
                     let mut leaf = leaves[*k].clone();
                     let mut proof = proofs[*k].clone();
                     let mut eff = *corrupt;
@@ -118,13 +176,13 @@ impl Check for MerkleIndexed {
                     }
                     let pv: Vec<BytesN<32>> = Vec::from_iter(e, proof.iter().map(|p| BytesN::from_array(e, p)));
                     // the pure verifier first (honest leaf hash of the possibly corrupted leaf)
-                    let lh = e.crypto().keccak256(&leaf.clone().to_xdr(e)).to_array();
+                    let lh = hh(e, sha, &leaf.clone().to_xdr(e));
                     let vr = c.try_verify(&pv, &BytesN::from_array(e, root), &BytesN::from_array(e, &lh), &leaf.index);
                     let genuine = eff == Corrupt::None;
                     let _ = hs;
                     match (&vr, genuine) {
-                        (Ok(Ok(true)), true) => {}
-                        (Ok(Ok(true)), false) => return Err(violation("verify.rejects_corrupted", "verify_with_index", i, format!("{s:?} verified"))),
+                        (Some(true), true) => {}
+                        (Some(true), false) => return Err(violation("verify.rejects_corrupted", "verify_with_index", i, format!("{s:?} verified"))),
                         (_, true) => return Err(violation("verify.accepts_honest", "verify_with_index", i, format!("{s:?} rejected: {vr:?}"))),
                         _ => {}
                     }
@@ -138,13 +196,38 @@ impl Check for MerkleIndexed {
                                 continue;
                             }
                             st.hit("fault.wrong_position");
-                            if let Ok(Ok(true)) = c.try_verify(&pv, &BytesN::from_array(e, root), &BytesN::from_array(e, &lh), &wrong) {
+                            if let Some(true) = c.try_verify(&pv, &BytesN::from_array(e, root), &BytesN::from_array(e, &lh), &wrong) {
                                 return Err(violation("verify.rejects_corrupted", "wrong_index", i, format!("leaf {} of a {}-leaf tree (proof length {depth}) verified at position {wrong}", leaf.index, leaves.len())));
                             }
                         }
                     }
+                    // sorted-pair form of the same hasher over the same leaves: the honest proof is accepted, the same kind of
+                    // corruption applied to it is rejected
+                    {
+                        let mut sp = sproofs[*k].clone();
+                        let mut seff = *corrupt;
+                        match corrupt {
+                            Corrupt::None | Corrupt::Amount => {}
+                            // the sorted-pair form has no position: a different index is a different leaf (its hash changes)
+                            Corrupt::Index(j) => if *j == leaves[*k].index { seff = Corrupt::None },
+                            Corrupt::Flip(p) => if sp.is_empty() { seff = Corrupt::None } else { let l = sp.len(); sp[*p % l][9] ^= 1 },
+                            Corrupt::Truncate => if sp.is_empty() { seff = Corrupt::None } else { sp.pop(); },
+                            Corrupt::Extend => sp.push([7u8; 32]),
+                            Corrupt::Other(j) => if sproofs[*j] == sp { seff = Corrupt::None } else { sp = sproofs[*j].clone() },
+                            Corrupt::Reverse => { let mut r = sp.clone(); r.reverse(); if r == sp { seff = Corrupt::None } else { sp = r } }
+                        }
+                        let spv: Vec<BytesN<32>> = Vec::from_iter(e, sp.iter().map(|p| BytesN::from_array(e, p)));
+                        let r = c.try_verify_sorted(&spv, &BytesN::from_array(e, sroot), &BytesN::from_array(e, &lh));
+                        st.hit(if seff == Corrupt::None { "probe.sorted_pair_honest" } else { "probe.sorted_pair_corrupted" });
+                        match (r, seff == Corrupt::None) {
+                            (Some(true), true) => {}
+                            (Some(true), false) => return Err(violation("verify.rejects_corrupted", "verify_sorted", i, format!("{s:?}: corrupted sorted-pair proof verified (sha={sha})"))),
+                            (other, true) => return Err(violation("verify.accepts_honest", "verify_sorted", i, format!("{s:?}: honest sorted-pair proof rejected: {other:?} (sha={sha})"))),
+                            _ => {}
+                        }
+                    }
                     let before = w.storage_digest(&[&id]);
-                    let got = c.try_claim(&leaf, &pv).is_ok();
+                    let got = c.try_claim(&leaf, &pv);
                     let exp = genuine && cur == Some(*tree) && !claimed.contains(&leaf.index);
                     st.tx(if genuine { "claim.genuine" } else { "claim.corrupted" }, got);
                     if got != exp {
@@ -157,7 +240,7 @@ impl Check for MerkleIndexed {
             for x in 0..*cfg.sizes.iter().max().unwrap() as u32 + 2 {
                 if c.is_claimed(&x) != claimed.contains(&x) { return Err(violation("claim.once_forever", "is_claimed", i, format!("index {x}"))); }
             }
-            st.state(&(claimed.len().min(30), cur));
+            st.state(&(claimed.len().min(30), cur, sha));
         }
         Ok(())
     }
